@@ -250,6 +250,11 @@ class DbModel:
                 return ('either', ('remove', kind, key)) if key in self.notes else ('reject', None)
             lst = self.lst(kind)
             if key in lst:
+                # delete looks the object up by equality (list.index): when an equal object is contained as well
+                # (possible after a rename made two tables alike), either of them may be the one removed
+                twins = self.eq_contained(key) if kind in ('table', 'reference') else []
+                if twins:
+                    return 'either', [('remove', kind, c) for c in [key] + twins]
                 return 'ok', ('remove', kind, key)
             eq = self.eq_contained(key)
             if eq:
